@@ -47,6 +47,27 @@ CHECKS = {
  'C14': ('catspace', MC, 'exhaustive enumeration of calls x every iteration order of the explorer-owned string set (schedule exploration of the hash-seed nondeterminism)',
          'Every pair in the bounded spaces is applied under every iteration order of the set of shared variable names (the only hash-seed-dependent construct on the path), must not raise, must not mutate its arguments, must repeat; seen-rule filtering equals the unrestricted result or []; nb invariance; unary tables return exactly their targets. Subprocess digests under several real PYTHONHASHSEED values validate that the seam owns the nondeterminism.',
          'Trusted: seam covers all seed-dependent constructs (validated by digests under 4/16 real seeds); sets >4 elements get 25 orders only (counted).', '5/C14'),
+ 'C07': ('treespace', EX, 'exhaustive enumeration of trees x tokens x formats x batch shapes against independent decoders',
+         'Licensed derivations of both grammars and every arbitrary tree shape (both head directions) x a 52-token alphabet x 10/9 formats x batch shapes: each output is read by an independent decoder written from the format description and must equal the projection of the derivation (words, shape, categories in the format spelling, labels, head flags, token attributes, offsets, conll heads, record numbering).',
+         'Trusted: decoders in mc/decoders.py; ccg2lambda formats excluded (need nltk/yaml); quick tier caps licensed trees per (label, shape) class and places tokens at one position per tree.', '5/C07'),
+ 'C08': ('treespace', EX, 'exhaustive enumeration of trees x tokens through to_string(auto) -> file -> read_auto',
+         'Same tree families x tokens without backslash: the tree read back has the same categories, shape, head flags, POS and words (escaped spelling); auto_of(read) reproduces the line; the reader token list matches; conll last-column fragments spell the same line.',
+         'Tokens carry a pos attribute; quick tier token placement as in C07.', '5/C08'),
+ 'C15': ('treespace', EX, 'exhaustive enumeration of trees x tokens through the XML writers, depccg readers, an independent Jigg decoder and ccg2lambda tree builder',
+         'C&C XML -> read_xml (shape, categories, words, token attributes, rule labels of licensed derivations); Jigg XML (ja) -> read_jigg_xml; every Jigg sentence self-contained (unique ids, references resolve, offsets tile, one root); build_ccg_tree isomorphic with rule attributes; normalize_tokens names; the document handed to ccg2lambda carries the template vocabulary.',
+         'ccg2lambda.parse itself is not executed (nltk/yaml absent); template vocabulary read by a line scanner.', '5/C15'),
+ 'C17': ('data', EX, 'exhaustive enumeration of documents x dictionaries against a reference mask; complete pass over the shipped data files',
+         'Every document of <=2 sentences x <=2 tokens over 3 words x every dictionary mapping <=2 words to every non-empty subset of 3(4) categories in both call forms: result == reference mask, dependency arrays bit-identical, tokens untouched. Every cat_dict.en entry is in targets.en, all 3469 shipped strings are well formed, inventories duplicate-free.',
+         'read_params (needs allennlp) is restated.', '5/C17'),
+ 'C18': ('history', MC, 'explicit-state BFS over rendering histories with canonical state hashing (closure at depth 1 => any history length)',
+         'States are canonical deep snapshots of result objects (single trees, n-best lists sharing tokens, batches, the placeholder); transitions are the formats. Every transition must be a self-loop, every output must equal the fresh-copy output and repeat; if all transitions out of the initial state are self-loops the graph is closed and the property holds for histories of any length, otherwise the search continues to depth 3.',
+         'State = content of result objects (object identity of shared tokens preserved); ccg2lambda formats excluded.', '5/C18'),
+ 'C19': ('treespace', EX, 'exhaustive enumeration of licensed trees covering the whole label vocabulary x placeholder batches x CLI formats',
+         'Every licensed derivation (with synthetic unary entries) plus one derivation per label of the rule-function vocabulary (read from the grammar sources) x rich and bare tokens, the placeholder from a real failing run, every batch of <=3 sentences over {parsed, failed} x every CLI format (read from argparse.py) except the ccg2lambda ones: no exception, parsed sentences decode.',
+         'ccg2lambda formats excluded.', '5/C19'),
+ 'C20': ('treespace', EX, 'exhaustive enumeration of trees x tokens through ptb/ja writers and readers; every proper prefix of printed PTB lines',
+         'to_string(ptb) -> read_ptb and ja_of -> read_ccgbank (also with the bank annotations injected): same categories, shape, words (and symbols for ja); every proper prefix of printed PTB lines must raise.',
+         'Known findings: multi-character tokens starting with ( or ending with ) cannot be read back from PTB.', '5/C20'),
 }
 
 PENDING = {}
